@@ -236,6 +236,7 @@ static inline double vm_hypot(double a, double b) {
   if (b == 0) return fabs(a);
   double r = __CPROVER_uninterpreted_vm_hypot(a, b);
   __CPROVER_assume(!isnan(r) && r >= fabs(a) && r >= fabs(b));
+  __CPROVER_assume(r <= (fabs(a) + fabs(b)) * 1.0000000000000009);   /* hypot <= |a| + |b| (4 ulp of slack for libm's error) */
   return r;
 }
 #define hypot(a, b) vm_hypot(a, b)
